@@ -153,10 +153,12 @@ package vm
 //@   ensures @noerr result1 == nil
 //@   ensures @mem memOk(ca) && (sameBacking(cac(ca).Cache, old(cac(ca).Cache)) || fresh(cac(ca).Cache))
 //@   ensures[C05,C08] @memwf memWf(ca)
+//@   ensures[C05,C08] @known cache.scopesKnown(cac(ca))
 //@   ensures[C05,C08] @levels old(depth(st)) >= 1 ==> levels(ca) == max(1, old(levels(ca)) - (old(depth(st)) - 1))
 //@   loop 1 modifies st.ExecPath, st.SizeIdx, st.Moves, st.lastMove, cac(ca).Cache, cac(ca).Cache[*], cac(ca).CacheUseSize, cac(ca).Sizes[*]
 //@   loop 1 invariant @mem memOk(ca) && (sameBacking(cac(ca).Cache, loopold(cac(ca).Cache)) || loopfresh(cac(ca).Cache))
 //@   loop 1 invariant[C05,C08] @memwf memWf(ca)
+//@   loop 1 invariant[C05,C08] @known cache.scopesKnown(cac(ca))
 //@   loop 1 invariant @path depth(st) <= old(depth(st)) && (old(depth(st)) >= 1 ==> depth(st) >= 1 && st.ExecPath[0] == old(st.ExecPath[0]))
 //@   loop 1 invariant @moved depth(st) < old(depth(st)) ==> st.SizeIdx == 0 && sym == state.last(st)
 //@   loop 1 invariant @unmoved depth(st) == old(depth(st)) ==> state.samePosition(st) && sym == old(sym)
@@ -198,13 +200,16 @@ package vm
 //@   ensures @where result2 == nil && depth(st) > 0 && (old(depth(st)) >= 1 || isNode(tgt(target))) ==> result0 == state.last(st)
 //@   ensures[C05,C08] @lockstep result2 == nil && old(levels(ca)) == old(depth(st)) + 1 && old(depth(st)) >= 1 ==> levels(ca) == depth(st) + 1
 //@   ensures[C05,C08] @lockfail result2 != nil ==> levels(ca) == old(levels(ca))
+//@   ensures[C05,C08] @known cache.scopesKnown(cac(ca))
 
 // ---- the VM object (runner.go) ----
 // The renderer hangs off the Vm: one Page, the current Menu (replaced on every
 // Reset) and the optional Sizer shared with the Page.
 //@ pred vmOk(vm) = vm != nil && vm.st != nil && state.flagsOk(vm.st) && vm.pg != nil && vm.mn != nil && memOk(vm.ca)
 //@   && vm.rs != nil && vm.pg.menu == vm.mn && (vm.pg.sizer == nil || vm.pg.sizer == vm.sizer) && vm.pg.cache == vm.ca
-//@   && (vm.st.input == nil || !sameBacking(vm.st.input, vm.st.Flags))
+//@   && (vm.st.input == nil || !sameBacking(vm.st.input, vm.st.Flags)) && count(flagcount) == int(vm.st.BitSize)
+// the page's mapping table is not one of the cache's scope maps
+//@ pred mapSep(vm) = forall(i, 0, levels(vm.ca), cac(vm.ca).Cache[i] != vm.pg.cacheMap)
 //@ pred unmapped(vm) = all[string](k, !in(k, vm.pg.cacheMap)) && vm.pg.sink == nil && vm.pg.extra == ""
 //@ pred freshMenu(vm) = len(vm.mn.menu) == 0 && !vm.mn.sink && vm.mn.pageCount == 0 && vm.mn.keep
 
@@ -228,6 +233,8 @@ package vm
 
 // MOVE: exactly one applyTarget with the instruction's own symbol.
 //@ func (*Vm).runMove
+//@   requires[C05,C08] mapSep(vm)
+//@   ensures[C05,C08] @mapsep mapSep(vm)
 //@   serves C04, C05
 //@   requires vmOk(vm)
 //@   requires[C05,C08] memWf(vm.ca)
@@ -251,6 +258,8 @@ package vm
 //@ pred catchMode(b) = int(b[afterInt(b, afterStr(b, 0))]) > 0
 //@ ghost catchRest(b) = b[afterInt(b, afterStr(b, 0)) + 1:]
 //@ func (*Vm).runCatch
+//@   requires[C05,C08] mapSep(vm)
+//@   ensures[C05,C08] @mapsep mapSep(vm)
 //@   serves C06, C04, C05
 //@   requires vmOk(vm) && codeSep(vm, b)
 //@   requires[C05,C08] memWf(vm.ca)
@@ -270,6 +279,8 @@ package vm
 // CROAK: under the same test, abandons the pending bytecode.
 //@ pred okCroak(b) = okInt(b, 0) && afterInt(b, 0) < len(b)
 //@ func (*Vm).runCroak
+//@   requires[C05,C08] mapSep(vm)
+//@   ensures[C05,C08] @mapsep mapSep(vm)
 //@   serves C06
 //@   requires vmOk(vm) && codeSep(vm, b)
 //@   requires[C05,C08] memWf(vm.ca)
@@ -298,6 +309,8 @@ package vm
 //@ ghost inputStr(vm) = str(vm.st.input)
 //@ pred matches(vm, b) = icSel(b) == inputStr(vm) || icSel(b) == "*"
 //@ func (*Vm).runInCmp
+//@   requires[C05,C08] mapSep(vm)
+//@   ensures[C05,C08] @mapsep mapSep(vm)
 //@   serves C03, C04, C05
 //@   requires vmOk(vm) && codeSep(vm, b)
 //@   requires[C05,C08] memWf(vm.ca)
@@ -319,3 +332,79 @@ package vm
 //@   ensures[C03] @otherflags state.clientFlagsSame(vm.st) && forall(n, 2, 8, bit(vm.st.Flags[0], n) == old(bit(vm.st.Flags[0], n)))
 //@   ensures[C05,C07] @unmapped result1 == nil && !posKept(vm) ==> unmapped(vm)
 //@   ensures[C05,C08] @lockstep old(levels(vm.ca)) == old(depth(vm.st)) + 1 && old(depth(vm.st)) >= 1 ==> levels(vm.ca) == depth(vm.st) + 1
+
+// LOAD/RELOAD back end: at most one external call; the reserved flags 0..5 are
+// not writable by the external function (LOADFAIL is set by the VM itself on
+// error); TERMINATE, LANG and the client flags are.
+//@ pred reservedKept(vm) = len(vm.st.Flags) == old(len(vm.st.Flags)) && forall(n, 0, 6, n != state.FLAG_LOADFAIL ==> bit(vm.st.Flags[0], n) == old(bit(vm.st.Flags[0], n)))
+//@ func (*Vm).refresh
+//@   serves C06, C05, C18
+//@   requires vmOk(vm) && rs != nil
+//@   modifies vm.last, vm.st.Flags[*], vm.st.Language, count(extcalls)
+//@   ensures @vm vmOk(vm) && posKept(vm)
+//@   ensures[C06] @reserved reservedKept(vm)
+//@   ensures[C06] @loadfail result1 == nil ==> bit(vm.st.Flags[0], state.FLAG_LOADFAIL) == old(bit(vm.st.Flags[0], state.FLAG_LOADFAIL))
+//@   ensures[C05,C06] @calls count(extcalls) <= old(count(extcalls)) + 1 && (result1 == nil ==> count(extcalls) == old(count(extcalls)) + 1)
+//@   loop 1 modifies vm.st.Flags[*]
+//@   loop 1 invariant @vm vmOk(vm)
+//@   loop 1 invariant[C06] @reserved reservedKept(vm) && bit(vm.st.Flags[0], state.FLAG_LOADFAIL) == old(bit(vm.st.Flags[0], state.FLAG_LOADFAIL))
+//@   loop 2 modifies vm.st.Flags[*]
+//@   loop 2 invariant @vm vmOk(vm)
+//@   loop 2 invariant[C06] @reserved reservedKept(vm) && bit(vm.st.Flags[0], state.FLAG_LOADFAIL) == old(bit(vm.st.Flags[0], state.FLAG_LOADFAIL))
+
+// capacity + any value length stays below 2^32 (no wrap in the capacity test)
+//@ pred noWrap(vm) = int(cac(vm.ca).CacheSize) < 2147483648
+//@ ghost loadSym(b) = strAt(b, 0)
+//@ pred okLoad(b) = okStr(b, 0) && okInt(b, afterStr(b, 0))
+//@ ghost loadSize(b) = intAt(b, afterStr(b, 0))
+//@ ghost loadRest(b) = b[afterInt(b, afterStr(b, 0)):]
+//@ ghost topScope(vm) = cac(vm.ca).Cache[levels(vm.ca) - 1]
+
+// LOAD: runs the external function at most once, and not at all while the
+// symbol is visible; stores the result at the current level under its limit.
+//@ func (*Vm).runLoad
+//@   requires[C05,C08] mapSep(vm)
+//@   ensures[C05,C08] @mapsep mapSep(vm)
+//@   serves C05
+//@   requires vmOk(vm) && noWrap(vm)
+//@   requires[C05,C08] memWf(vm.ca)
+//@   modifies vm.last, vm.st.Flags[*], vm.st.Language, count(extcalls)
+//@   modifies cac(vm.ca).CacheUseSize, cac(vm.ca).LastValue, cac(vm.ca).Sizes[loadSym(b)], topScope(vm)[loadSym(b)]
+//@   ensures @vm vmOk(vm) && posKept(vm) && levels(vm.ca) == old(levels(vm.ca))
+//@   ensures[C05,C08] @memwf memWf(vm.ca)
+//@   ensures @decode old(!okLoad(b)) ==> result1 != nil && count(extcalls) == old(count(extcalls))
+//@   ensures[C05] @once count(extcalls) <= old(count(extcalls)) + 1
+//@   ensures[C05] @skip old(okLoad(b) && cache.visible(cac(vm.ca), loadSym(b))) ==> result1 == nil && count(extcalls) == old(count(extcalls))
+//@     && result0 == old(loadRest(b)) && flagsKept(vm) && unchanged(cac(vm.ca).CacheUseSize)
+//@     && in(old(loadSym(b)), topScope(vm)) == old(in(loadSym(b), topScope(vm))) && topScope(vm)[old(loadSym(b))] == old(topScope(vm)[loadSym(b)])
+//@   ensures[C05] @stored old(okLoad(b) && !cache.visible(cac(vm.ca), loadSym(b))) && result1 == nil ==> count(extcalls) == old(count(extcalls)) + 1
+//@     && in(old(loadSym(b)), topScope(vm)) && cac(vm.ca).Sizes[old(loadSym(b))] == uint16(old(loadSize(b)))
+//@     && (uint16(old(loadSize(b))) > 0 ==> len(topScope(vm)[old(loadSym(b))]) <= int(uint16(old(loadSize(b)))))
+//@   ensures[C05] @failed result1 != nil ==> unchanged(cac(vm.ca).CacheUseSize)
+//@     && in(old(loadSym(b)), topScope(vm)) == old(in(loadSym(b), topScope(vm))) && topScope(vm)[old(loadSym(b))] == old(topScope(vm)[loadSym(b)])
+
+// MAP <symbol>
+//@ func (*Vm).runMap
+//@   serves C05
+//@   requires vmOk(vm) && render.pageOk(vm.pg)
+//@   requires[C05] cache.unique(cac(vm.ca))
+//@   modifies vm.pg.sink, vm.pg.cacheMap[*], vm.pg.sizer.memberSizes[*], vm.pg.sizer.sink, vm.pg.sizer.totalMemberSize
+//@   ensures @vm vmOk(vm) && posKept(vm) && flagsKept(vm) && render.pageOk(vm.pg)
+
+// RELOAD: re-runs the function exactly once (when it resolves) and replaces
+// the value under the limit declared by the LOAD; a rejected value is neither
+// stored nor mapped in place of the old one.
+//@ ghost scopeOf(vm, k) = cac(vm.ca).Cache[cache.scope(cac(vm.ca), k)]
+//@ func (*Vm).runReload
+//@   requires[C05,C08] mapSep(vm)
+//@   ensures[C05,C08] @mapsep mapSep(vm)
+//@   serves C05
+//@   requires vmOk(vm) && noWrap(vm) && render.pageOk(vm.pg)
+//@   requires[C05,C08] memWf(vm.ca)
+//@   modifies vm.last, vm.st.Flags[*], vm.st.Language, count(extcalls), cac(vm.ca).CacheUseSize, scopeOf(vm, loadSym(b))[loadSym(b)]
+//@   modifies vm.pg.sink, vm.pg.cacheMap[*], vm.pg.sizer.memberSizes[*], vm.pg.sizer.sink, vm.pg.sizer.totalMemberSize
+//@   ensures @vm vmOk(vm) && posKept(vm) && levels(vm.ca) == old(levels(vm.ca)) && render.pageOk(vm.pg)
+//@   ensures[C05,C08] @memwf memWf(vm.ca)
+//@   ensures @decode old(!okStr(b, 0)) ==> result1 != nil && count(extcalls) == old(count(extcalls))
+//@   ensures[C05] @once count(extcalls) <= old(count(extcalls)) + 1 && (result1 == nil ==> count(extcalls) == old(count(extcalls)) + 1)
+//@   ensures[C05] @mapped result1 == nil ==> in(old(loadSym(b)), vm.pg.cacheMap) && vm.pg.cacheMap[old(loadSym(b))] == scopeOf(vm, old(loadSym(b)))[old(loadSym(b))]
